@@ -16,3 +16,4 @@ for k, inp in (('K_NSNNWN', 'n < 2^24'), ('K_LENGTH', 'length < 16384'), ('K_FRA
     HARNESSES.append(H('uperk_%s' % k[2:].lower(), 'C02/uper_kernels.c', sources=PK, defines=['-D' + k], exclude=r'xer|_print',
                        functions=['uper_put/get_%s' % k[2:].lower(), 'asn_put_few_bits', 'asn_get_few_bits', 'asn_put_aligned_flush'],
                        inputs=inp, bounds='none beyond the stated argument range'))
+
